@@ -51,10 +51,17 @@ def build(src='/repo', asan=False, quiet=True):
     fcntl.flock(lock, fcntl.LOCK_EX)
     try:
         if os.path.exists(stamp):
+            os.utime(stamp, None)          # mark as recently used
             return out
-        # keep the cache small: drop older builds of the same flavour
-        for d in glob.glob(os.path.join(BUILD_ROOT, f'{flavour}-*')):
-            if d != out:
+        # keep the cache small: drop builds of the same flavour that have not been used for a while (never one that another
+        # check running concurrently may still be importing from), and never keep more than a handful
+        now = time.time()
+        others = sorted((d for d in glob.glob(os.path.join(BUILD_ROOT, f'{flavour}-*')) if d != out),
+                        key=lambda d: os.path.getmtime(os.path.join(d, '.ok')) if os.path.exists(os.path.join(d, '.ok')) else 0, reverse=True)
+        for i, d in enumerate(others):
+            st = os.path.join(d, '.ok')
+            age = now - os.path.getmtime(st) if os.path.exists(st) else 1e9
+            if age > 6 * 3600 or i >= 5:
                 shutil.rmtree(d, ignore_errors=True)
         shutil.rmtree(out, ignore_errors=True)
         os.makedirs(pkg)
